@@ -61,13 +61,28 @@ def _ds_plan(rng, family, tier):
     if rng.random() < 0.3:
       cfg['reset_preconditioner'] = True
       cfg['beta2'] = pick(rng, [0.5, 0.75, 0.9])
-  elif family == 'ds_eager':
+  elif family in ('ds_eager', 'ds_eager_fd'):
     mode = 'eager'
+    if family == 'ds_eager_fd':
+      # op-by-op frequent directions (the only path that looks at the *type*
+      # of restored leaves is the eager one)
+      x64 = False
+      cfg['compression_rank'] = pick(rng, [1, 2])
+      cfg['block_size'] = 8
+      cfg['frequent_directions'] = True
+      cfg['reuse_preconditioner'] = True
+      cfg['preconditioning_compute_steps'] = pick(rng, [1, 2, 2, 3])
+      cfg['statistics_compute_steps'] = cfg['preconditioning_compute_steps']
+      cfg['start_preconditioning_step'] = pick(rng, [0, 1, 2])
+      cfg['average_grad'] = rng.random() < 0.7
+      cfg['precondtioner_type'] = 1
   cfg = common.constrain(cfg, mode, quant, x64)
   if family in ('ds_lr', 'ds_fd'):
     cfg['reuse_preconditioner'] = family == 'ds_fd'
+  if family == 'ds_eager_fd':
+    cfg['reuse_preconditioner'] = True
   tree = ds_gen.fix_tree_for_config(rng, ds_gen.gen_tree(
-      rng, max_elems=200 if family != 'ds_eager' else 40), cfg)
+      rng, max_elems=200 if not family.startswith('ds_eager') else 40), cfg)
   if mode == 'sharded':
     n = shp.tree_layout(tree, cfg)['n_stats']
     if not common.sharded_mesh_ok(n, D, mesh):
@@ -81,7 +96,7 @@ def generate(seed, idx, tier):
   family = wpick(rng, [('ds_full', 4), ('ds_q', 2), ('ds_lr', 2), ('ds_fd', 2),
                        ('ds_sharded', 2), ('sm3', 2), ('tf_shampoo', 3),
                        ('tf_sketchy', 3), ('sm3_eager', 1), ('tf_eager', 1),
-                       ('ds_eager', 1)])
+                       ('ds_eager', 1), ('ds_eager_fd', 2)])
   if family.startswith('ds'):
     plan = _ds_plan(rng, family, tier)
     n_leaves = len(plan['tree'])
@@ -114,11 +129,14 @@ def generate(seed, idx, tier):
              cfg['graft']['start_preconditioning_step']}
   T = rng.randrange(4, 9) if tier == 'quick' else rng.randrange(6, 13)
   if plan.get('mode') == 'eager':
-    T = min(T, 5 if not family.startswith('ds') else 3)
+    T = min(T, 5 if not family.startswith('ds') or
+            plan['config'].get('frequent_directions') else 3)
   rate = 0.0 if rng.random() < 0.6 else 0.15
   # non-finite input makes the unguarded LAPACK svd/qr of the DS
   # frequent-directions path hang (out-of-scope observation, DESIGN 6)
-  kinds = ['zero', 'big', 'tiny', 'subnormal'] if family == 'ds_fd' else None
+  kinds = ['zero', 'big', 'tiny', 'subnormal'] if (
+      family.startswith('ds') and plan['config'].get('frequent_directions')
+  ) else None
   ops = common.gen_history(rng, sched, n_leaves, T, rate, fault_kinds=kinds,
                            restores=False, rejit=False)
   if rng.random() < 0.3:
@@ -126,11 +144,38 @@ def generate(seed, idx, tier):
                   'T': pick(rng, [8, 16])}
   plan.update({'class': family, 'param_seed': rng.randrange(1000), 'ops': ops,
                'params_follow': rng.random() < 0.5,
-               'numpy_restore': plan.get('mode') == 'eager' and rng.random() < 0.5,
+               'numpy_restore': plan.get('mode') == 'eager' and rng.random() < (
+                   0.7 if family == 'ds_eager_fd' else 0.5),
                'fresh_interpreter': ([rng.randrange(0, T + 1)]
                                      if rng.random() < 0.25 else []),
                'rejit_at': ([rng.randrange(0, T)] if rng.random() < 0.3 else [])})
   return plan
+
+
+# Relative deviation tolerated between an uninterrupted run and an op-by-op run
+# resumed from numpy leaves, on the *linear accumulators* of the state only
+# (Gram statistics, graft accumulators, averaged gradients): their rounding
+# differences stay at a few ulp per tick, whereas anything downstream of an
+# inverse root amplifies them by the conditioning of the statistics (DESIGN 8).
+NUMPY_TOL = 1e-4
+
+
+def _linear_leaves(plan, leaves):
+  import numpy as np
+  out = {}
+  if plan['system'] == 'ds':
+    from sim.ds_world import category
+    fd = bool(plan['config'].get('frequent_directions'))
+    for k, v in leaves.items():
+      c = category(k)
+      if c in ('diag', 'avg_grad') or (c == 'stat' and not fd):
+        out[k] = np.array(v)
+  elif plan['system'] == 'tearfree':
+    from sim.tf_run import category
+    for k, v in leaves.items():
+      if category(k) in ('stat', 'acc'):
+        out[k] = np.array(v)
+  return out
 
 
 def _hash_tick(world, ups, leaves):
@@ -181,6 +226,8 @@ def run_suffix(plan, k, data, params):
     u, state = world.update(g, state, params)
     ups = world.updates_np(u)
     out.append(_hash_tick(world, ups, named_leaves(state)))
+    if plan.get('numpy_restore'):
+      out[-1] = out[-1] + (_linear_leaves(plan, named_leaves(state)),)
     if plan.get('params_follow'):
       params = [np.asarray(p + (x[0] if x.ndim > p.ndim else x), p.dtype)
                 for p, x in zip(params, ups)]
@@ -201,7 +248,7 @@ def run(plan):
   state = world.init(params)
   blobs = [world.to_bytes(state)]
   pars = [[np.array(p) for p in params]]
-  base = []
+  base, base_ups = [], []
   ctx.log.add(op='INIT', st=sha_leaves(named_leaves(state)))
   for t, op in enumerate(ops):
     if t in plan.get('rejit_at', []):
@@ -215,6 +262,8 @@ def run(plan):
     ups = world.updates_np(u)
     h = _hash_tick(world, ups, named_leaves(state))
     base.append(h)
+    base_ups.append(_linear_leaves(plan, named_leaves(state))
+                    if plan.get('numpy_restore') else None)
     ctx.saw_op('STEP')
     ctx.ticks += 1
     ctx.log.add(op='STEP', t=t, upd=h[0], st=h[1])
@@ -237,8 +286,36 @@ def run(plan):
     ctx.probe('crash_points')
     layout_ok, got = run_suffix(plan, k, blobs[k], pars[k])
     if plan.get('numpy_restore'):
+      # leaves exactly as flax hands them back (read-only numpy arrays) and an
+      # op-by-op update: numpy dispatch rounds differently from XLA (an ulp per
+      # operation), so the resumed run is compared numerically, not bitwise
       ctx.probe('numpy_leaf_resumes')
       ctx.ev('resume_completes')
+      for j, h in enumerate(got):
+        worst, where_ = 0.0, None
+        for name, a in base_ups[k + j].items():
+          b = h[2].get(name)
+          a64 = np.asarray(a, np.float64)
+          b64 = None if b is None else np.asarray(b, np.float64)
+          if b64 is None or a64.shape != b64.shape or not np.array_equal(
+              np.isfinite(a64), np.isfinite(b64)):
+            worst, where_ = float('inf'), name
+            continue
+          fin = np.isfinite(a64)
+          if not np.any(fin):
+            continue
+          sc = max(float(np.max(np.abs(a64[fin]))), 1e-300)
+          d = float(np.max(np.abs(a64[fin] - b64[fin]))) / sc
+          if d > worst:
+            worst, where_ = d, name
+        ok = worst <= NUMPY_TOL
+        ctx.ev('resume_numpy_close', 'ok' if ok else 'violation',
+               worst / NUMPY_TOL)
+        if not ok:
+          ctx.violate('resume_numpy_close', fam,
+                      'numpy_leaf_resume_diverges', k=k, tick=k + j,
+                      rel_diff=worst, leaf=where_)
+          break
       continue
     _compare(ctx, fam, k, base, got, layout_ok, 'inproc')
     if k < T:
@@ -252,7 +329,8 @@ def run(plan):
       continue
     ctx.probe('fresh_interpreter_resumes')
     ctx.saw_op('CRASH_RESTORE_FRESH_PROCESS')
-    res = _child(plan, k, blobs[k], pars[k])
+    # (bitwise comparison: leaves placed on device, see numpy_restore above)
+    res = _child(dict(plan, numpy_restore=False), k, blobs[k], pars[k])
     if res is None:
       raise RuntimeError('fresh-interpreter resume failed to run')
     if res.get('error'):
